@@ -235,6 +235,25 @@ def deliver {α} (pol : CtxPolicy) (it : Iter α) (stop cancel : Option Nat) : T
           (if pol = .report then (.ctx, it.snap.take c) else (.fin, it.snap.take c))
         else plain
 
+/-! ### `validate`, the store's own consistency check
+
+`MemoryEventStore.validate` (called at the end of `purge` and of `SessionClosed`) counts the bytes of every
+retained item and panics ("sizes don't add up") if the count differs from `nBytes`.  It is compiled out
+(`validateMemoryEventStore = false`); the harness's `stat` probe does the same count. -/
+
+def dataBytes {α} (sz : α → Nat) : List α → Nat
+  | [] => 0
+  | d :: t => sz d + dataBytes sz t
+
+/-- `validate`'s count `n`. -/
+def retainedBytes {α} (sz : α → Nat) : List (Key × DL α) → Nat
+  | [] => 0
+  | (_, dl) :: t => dataBytes sz dl.data + retainedBytes sz t
+
+/-- `validate` with the check compiled in; `none` = panic("sizes don't add up"). -/
+def validate {α} (sz : α → Nat) (s : Store α) : Option Unit :=
+  if retainedBytes sz s.store = s.nBytes then some () else none
+
 /-- Run a whole history; `none` as soon as a step panics. Outputs are collected oldest first. -/
 def run {α} (sz : α → Nat) : Store α → List (Op α) → Option (Store α × List (Out α))
   | s, [] => some (s, [])
